@@ -50,6 +50,15 @@ def fmt_ts(t):
     return "%d.%09d" % (t // 10**9, t % 10**9)
 
 
+def fmt_dur(ns):
+    """a duration as uftrace's parse_time() takes it (at most three digits before the decimal point)"""
+    if ns < 1000:
+        return "%dns" % ns
+    if ns < 1000000:
+        return "%d.%03dus" % (ns // 1000, ns % 1000)
+    return "%d.%06dms" % (ns // 1000000, ns % 1000000)
+
+
 def cli_opts(cfg):
     o = []
     for k, tr in sorted(cfg.get("trig", {}).items()):
@@ -62,7 +71,7 @@ def cli_opts(cfg):
         if tr.get("depth") is not None:
             acts.append("depth=%d" % tr["depth"])
         if tr.get("time") is not None:
-            acts.append("time=%dns" % tr["time"])
+            acts.append("time=%s" % fmt_dur(tr["time"]))
         if tr.get("trace_on"):
             acts.append("trace_on")
         if tr.get("trace_off"):
@@ -78,12 +87,12 @@ def cli_opts(cfg):
     if cfg.get("depth") is not None:
         o += ["-D", str(cfg["depth"])]
     if cfg.get("threshold"):
-        o += ["-t", "%dns" % cfg["threshold"]]
+        o += ["-t", fmt_dur(cfg["threshold"])]
     a, b = cfg.get("range", (0, 0))
     if (a or b) and cfg.get("range_first") is not None:
         # elapsed form: offsets from the first timestamp of the recording (`-r 100ns~2us`)
         first = cfg["range_first"]
-        o += ["-r", "%s~%s" % ("%dns" % (a - first) if a else "", "%dns" % (b - first) if b else "")]
+        o += ["-r", "%s~%s" % (fmt_dur(a - first) if a else "", fmt_dur(b - first) if b else "")]
     elif a or b:
         o += ["-r", "%s~%s" % (fmt_ts(a) if a else "", fmt_ts(b) if b else "")]
     for k, v in sorted(cfg.get("loc", {}).items()):
@@ -923,6 +932,14 @@ def gen_mcase(rng, kind):
         forest.assign_times(rng, g, t0=rng.choice([1000, 1000, 1001, 1040]), durs=(1, 2, 3, 9, 10, 11, 99, 100, 101, 200))
         fs.append(g)
     times = [set(t for c in fcalls(g) for t in (c.t0, c.t1)) for g in fs]
+    if cfg.get("range") and rng.random() < 0.5:
+        # elapsed times count from handle->time_range.first, which starts as the first record of the FIRST task:
+        # only used when that is the earliest record of the recording (the main thread, as in real data)
+        first = min(min(ts) for ts in times)
+        lo, hi = cfg["range"]
+        if first == min(times[0]) and (not lo or lo > first) and (not hi or hi > first):
+            cfg["range_first"] = first            # elapsed form, counted from the first record of all tasks
+            tags.append("range:elapsed")
     if any(times[i] & times[j] for i in range(len(fs)) for j in range(i)):
         tags.append("equal-timestamps-across-tasks")
     return cfg, fs, tags + ["tasks=%d" % ntask]
@@ -1304,7 +1321,7 @@ def run(ctx):
         ctx.case(key=("mt", json.dumps(cfg_json(c["cfg"]), sort_keys=True),
                       json.dumps([[x.to_json() for x in f] for f in c["forests"]])),
                  nontrivial=len(c["out"]["chrome"]) != 2 * size,
-                 tags=["several-tasks", "mt:" + c["kind"]] + [t for t in c["tags"] if t.startswith(("tasks=", "equal-"))]
+                 tags=["several-tasks", "mt:" + c["kind"]] + [t for t in c["tags"] if t.startswith(("tasks=", "equal-", "range:"))]
                  + (["mt:in-spec-class"] if i in inside3 else []),
                  size=size, sample=mcase_json(c) if i == 1 else None)
     verdict3(ctx, mcases, res3)
